@@ -1,0 +1,44 @@
+//go:build verif
+// +build verif
+
+package rjson
+
+// VerifStack returns the stack slice currently held by b.
+func (b *Buffer) VerifStack() []int {
+	return b.stackBuf
+}
+
+// VerifSetStack replaces the stack slice held by b.
+func (b *Buffer) VerifSetStack(s []int) {
+	b.stackBuf = s
+}
+
+// VerifReaderState is a read-only view of the state a ValueReader keeps between calls.
+type VerifReaderState struct {
+	Depth         int
+	NewMapSize    int
+	LastMapSize   int
+	MaxMapSize    int
+	NewSliceSize  int
+	LastSliceSize int
+	StringBufCap  int
+	FieldBufCap   int
+	ArrValCap     int
+	StackLen      int
+}
+
+// VerifState returns a copy of h's between-call state.
+func (h *ValueReader) VerifState() VerifReaderState {
+	return VerifReaderState{
+		Depth:         h.depth,
+		NewMapSize:    h.newMapSize,
+		LastMapSize:   h.lastMapSize,
+		MaxMapSize:    h.maxMapSize,
+		NewSliceSize:  h.newSliceSize,
+		LastSliceSize: h.lastSliceSize,
+		StringBufCap:  cap(h.stringBuf),
+		FieldBufCap:   cap(h.fieldNameBuf),
+		ArrValCap:     cap(h.arrVal),
+		StackLen:      len(h.buf.stackBuf),
+	}
+}
